@@ -232,8 +232,8 @@ func runSubList(c *h.Ctx, r *h.Report) {
 
 		return
 	}
-	runEncCases(c, r, c.Scale(500, 20000))
-	n := c.Scale(300, 10000)
+	runEncCases(c, r, c.Scale(1000, 20000))
+	n := c.Scale(600, 10000)
 	for i := 0; i < n; i++ {
 		rr := c.Rand.Fork()
 		// pool
